@@ -287,7 +287,9 @@ impl<'de> Visitor<'de> for ArtifactRuleVisitor {
         V: SeqAccess<'de>,
     {
         let mut len = 0;
-        let typ: &str = seq
+        // an owned string: a borrowed `&str` can only be handed out by some
+        // deserializers (in-memory text without escapes in that string)
+        let typ: String = seq
             .next_element()?
             .ok_or_else(|| de::Error::invalid_length(len, &self))?;
         len += 1;
@@ -297,7 +299,7 @@ impl<'de> Visitor<'de> for ArtifactRuleVisitor {
             .ok_or_else(|| de::Error::invalid_length(len, &self))?;
         len += 1;
 
-        match typ {
+        match typ.as_str() {
             "CREATE" => Ok(ArtifactRule::Create(pattern)),
             "DELETE" => Ok(ArtifactRule::Delete(pattern)),
             "MODIFY" => Ok(ArtifactRule::Modify(pattern)),
